@@ -63,19 +63,32 @@ def partitionPubs (out : String) : String :=
       | _ => t
     else t)
 
-/-- `WritePacket` buffers every write made while the client's outbound queue is not empty and flushes
-    when the write loop has drained the queue.  Inside one chunk of bytes the handler never blocks, so
-    from the first PUBLISH queued to a connection onwards everything written to it stays in that buffer
-    until the chunk is exhausted — and is lost if the connection is stopped before (flushing is C34's
-    subject, its schedule M4's).  For a connection that ends in this op only the packets written before
-    the first queued PUBLISH are therefore compared. -/
-def cutAfterQueued (outs : List Out) : List Out :=
+/-- `WritePacket` buffers a write made while the client's outbound queue is not empty and flushes when
+    the write loop has drained the queue; a buffer that was not flushed when the client is stopped is
+    lost (flushing is C34's subject, its schedule M4's: whether the queue counts as empty depends on
+    whether the write loop had already taken the queued packet).  For a connection that ENDS in this op
+    the packets written before the first PUBLISH queued to it are certainly on the wire; of the
+    handler-written packets after that point some prefix is: `keep` says how many (resolved against the
+    implementation like the map-order seeds, for the op's own connection `n`; 0 for other connections).
+    PUBLISH packets to an ending connection are not compared at all (`renderOuts`). -/
+def cutAfterQueued (outs : List Out) (n keep : Nat) : List Out :=
   let closing := outs.filterMap fun o => match o with | .closed c => some c | _ => none
-  (outs.foldl (fun (acc : List Out × List Nat) (o : Out) =>
+  -- state: output so far, connections past their first queued PUBLISH, extra packets still allowed for n
+  (outs.foldl (fun (acc : List Out × List Nat × Nat) (o : Out) =>
+    let (out, cut, left) := acc
     match o with
-    | .wrote c (.publish ..) => if closing.contains c then (acc.1, c :: acc.2) else (acc.1 ++ [o], acc.2)
-    | .wrote c _ => if acc.2.contains c then acc else (acc.1 ++ [o], acc.2)
-    | _ => (acc.1 ++ [o], acc.2)) ([], [])).1
+    | .wrote c (.publish ..) => if closing.contains c then (out, c :: cut, left) else (out ++ [o], cut, left)
+    | .wrote c _ =>
+      if cut.contains c then
+        if c == n && left > 0 then (out ++ [o], cut, left - 1) else (out, cut, left)
+      else (out ++ [o], cut, left)
+    | _ => (out ++ [o], cut, left)) ([], [], keep)).1
+
+/-- how many handler-written packets follow the first queued PUBLISH of an ending connection `n` -/
+def extraAfterQueued (outs : List Out) (n : Nat) : Nat :=
+  if !(outs.any fun o => match o with | .closed c => c == n | _ => false) then 0 else
+  let after := outs.dropWhile fun o => match o with | .wrote c (.publish ..) => c != n | _ => true
+  (after.filter fun o => match o with | .wrote _ (.publish ..) => false | .wrote c _ => c == n | _ => false).length
 
 /-- an accepted CONNECT outside the region M3 models -/
 def connectUnmodelled (pk : Packet) : Bool :=
@@ -106,23 +119,34 @@ def rawModel (cfg : Cfg) (srv : Server) (hc : HConn) (bytes : List Nat) : Server
         let (s2, o2) := feed cfg s1 hc.n rest
         fin (s2, o1 ++ o2) true false
 
-/-- resolve Go's map-order choices as `stepSearch` does, for a raw op -/
+/-- resolve Go's map-order choices as `stepSearch` does, for a raw op; and the number of buffered
+    handler-written packets that reached the wire before an ending connection was stopped -/
 def rawSearch (st : BkState) (cfg : Cfg) (hc : HConn) (bytes : List Nat) (impl : String) (sortTail : Option Nat) :
     BkState × String × Bool × Bool :=
-  let run (c : Nat × Nat × Nat × Nat) : BkState × String × Bool × Bool :=
+  let model (c : Nat × Nat × Nat × Nat) : Server × List Out × Bool × Bool :=
     let (ps, pk, os, ns) := c
-    let (srv, outs, est, unm) := rawModel cfg { st.srv with permSeed := ps, pickSeed := pk, orderSeed := os, nextSeed := ns } hc bytes
-    let (st', out) := renderOuts { st with srv := { srv with permSeed := 0, pickSeed := 0, orderSeed := 0, nextSeed := 0 } } (cutAfterQueued outs) sortTail
+    rawModel cfg { st.srv with permSeed := ps, pickSeed := pk, orderSeed := os, nextSeed := ns } hc bytes
+  let render (m : Server × List Out × Bool × Bool) (keep : Nat) : BkState × String × Bool × Bool :=
+    let (srv, outs, est, unm) := m
+    let (st', out) := renderOuts { st with srv := { srv with permSeed := 0, pickSeed := 0, orderSeed := 0, nextSeed := 0 } }
+      (cutAfterQueued outs hc.n keep) sortTail
     (st', partitionPubs out, est, unm)
-  let d := run (0, 0, 0, 0)
-  if d.2.1 == impl || d.2.2.2 then d else
-  let cands : List (Nat × Nat × Nat × Nat) :=
-    ((List.range 6).flatMap fun e => (List.range 120).map fun p => (p + permBase * e, 0, 0, 0)) ++
-    ((List.range 3).flatMap fun ns => (List.range 24).map fun p => (p, 0, 0, ns + 1)) ++
-    ((List.range 27).flatMap fun pk => (List.range 6).map fun os => (0, pk, os, 0))
-  match cands.find? (fun c => (run c).2.1 == impl) with
-  | some c => run c
-  | none => d
+  let run (c : Nat × Nat × Nat × Nat) : Option (BkState × String × Bool × Bool) :=
+    let m := model c
+    ((List.range (extraAfterQueued m.2.1 hc.n + 1)).map (render m)).find? (fun r => r.2.1 == impl)
+  let m0 := model (0, 0, 0, 0)
+  let d := render m0 0
+  if d.2.2.2 then d else
+  match run (0, 0, 0, 0) with
+  | some r => r
+  | none =>
+    let cands : List (Nat × Nat × Nat × Nat) :=
+      ((List.range 6).flatMap fun e => (List.range 120).map fun p => (p + permBase * e, 0, 0, 0)) ++
+      ((List.range 3).flatMap fun ns => (List.range 24).map fun p => (p, 0, 0, ns + 1)) ++
+      ((List.range 27).flatMap fun pk => (List.range 6).map fun os => (0, pk, os, 0))
+    match cands.findSome? run with
+    | some r => r
+    | none => d
 
 /-! ### C28 verdicts on the implementation's answer -/
 
@@ -185,6 +209,15 @@ def c28RefVerdicts (pre : Server) (ws : List String) (core : String) : List Stri
         (if gotMsg || flow then [] else [fail "C28" "-" s!"reference client on c{n} did not get its own message back"])
   | _ => []
 
+/-- F28b: a well-behaved (non-raw) connection was sent a PUBLISH whose topic name contains a wildcard —
+    only an unvalidated will topic of some CONNECT can put one into the broker -/
+def c28WildcardVerdicts (h : HState) (core : String) : List String :=
+  (parseImplOut core).conns.flatMap fun (n, pks) =>
+    if (h.get n).isSome then [] else
+    if pks.any (fun p => p.startsWith "PUB:" && (p.splitOn "!bad(publish-topic-contains-wildcard)").length > 1) then
+      [fail "C28" "F28b" s!"the well-behaved client on c{n} was sent a PUBLISH whose topic name contains a wildcard"]
+    else []
+
 def timeoutVerdict (impl : String) : List String :=
   if impl.startsWith "timeout" then [fail "C28" "-" s!"the broker did not answer ({impl})"] else []
 
@@ -210,7 +243,7 @@ def hostileOpV (st : BkState) (h : HState) (impl : String) (ws : List String) :
     let e := framesEnd all
     let firstFrames := !hc.started && e > 0
     let (st', out, est, unm) := rawSearch st0 cfg hc bytes coreH (if firstFrames then some n else none)
-    let vs := timeoutVerdict impl ++ c28RawVerdicts st.srv h hc bytes core
+    let vs := timeoutVerdict impl ++ c28RawVerdicts st.srv h hc bytes core ++ c28WildcardVerdicts h core
     if unm then some (st, { h with echo := true }, impl, renderVerdicts (timeoutVerdict impl), "unmodelled") else
     let hc' : HConn := { hc with pending := if e > 0 then all.drop e else all, started := hc.started || e > 0,
                                  established := est }
@@ -225,7 +258,7 @@ def hostileOpV (st : BkState) (h : HState) (impl : String) (ws : List String) :
   | _ =>
     if h.echo && ws.head?.any (·.startsWith "bk.") then some (st, h, impl, renderVerdicts (timeoutVerdict impl), "unmodelled") else
     match brokerOpV st impl ws with
-    | some (st', m, v, g) => some (st', h, m, addV v (timeoutVerdict impl ++ c28RefVerdicts st.srv ws core), g)
+    | some (st', m, v, g) => some (st', h, m, addV v (timeoutVerdict impl ++ c28RefVerdicts st.srv ws core ++ c28WildcardVerdicts h core), g)
     | none => none
 
 end Mochi.Driver
